@@ -30,6 +30,27 @@ class StableDivision(Contract):
     qualname = 'torchsde._core.misc.stable_division'
 
     def apply(self, E, cx, a, lineno):
+        # call-pre: |b| > epsilon.  The only hypothesis available for it is the stated assumption on the user's diffusion (every entry of a
+        # diagonal g has |g_i| > 1e-7), so it is discharged exactly when every divisor element is such an entry; any other divisor
+        # (e.g. a squared column norm, whose guard |g|^2 > 1e-7 excludes ordinary full-column-rank diffusions) is not covered.
+        b = a['b']
+        def is_entry(e):
+            p = Poly.lift(e)
+            if p is None or len(p.t) != 1:
+                return False
+            (mono, coeff), = p.t.items()
+            return len(mono) == 1 and mono[0][1] == 1 and coeff in (1, -1) and str(mono[0][0]).startswith('G')
+        if not (isinstance(b, XT) and all(is_entry(e) for e in b.a.reshape(-1))):
+            E.frame_violations.append({'name': f'C18/stable_division/call-pre.divisor-inside-guard(|b|>1e-7)@L{lineno}', 'kind': 'call-pre', 'lineno': lineno,
+                                       'what': 'stable_division clamps divisors with |b| <= 1e-7; the assumption |g_i| > 1e-7 on the entries of a diagonal diffusion '
+                                               'discharges the guard only when the divisor is such an entry; here the divisor is ' + repr(b.a.reshape(-1)[0])[:120]})
+            if isinstance(b, XT) and any(len(Poly.lift(e).t) != 1 for e in b.a.reshape(-1)):
+                # the polynomial kernel cannot divide by a non-monomial: continue with opaque quotients (the violation is already recorded)
+                shape = np.broadcast(a['a'].a, b.a).shape
+                q = np.empty(shape, dtype=object)
+                for i, idx in enumerate(np.ndindex(*shape)):
+                    q[idx] = Poly.var(f'Qsd{lineno}_{i}')
+                return XT(q)
         return a['a'] / a['b']
 
 
